@@ -7,6 +7,9 @@
 //! would not see that the same data any more
 
 use std::fmt;
+#[cfg(may_verif)]
+use crate::verif::atomic::{AtomicUsize, Ordering};
+#[cfg(not(may_verif))]
 use std::sync::atomic::{AtomicUsize, Ordering};
 use std::sync::mpsc::{RecvError, RecvTimeoutError, SendError, TryRecvError};
 use std::sync::Arc;
